@@ -270,7 +270,21 @@ def fam_stale(ctx):
     return {"must_report": ["ST.stale|stale_link_bad"], "must_not_report": ["ST.stale|stale_known_ok", "ST.stale|stale_fresh_ok"]}
 
 
-FAMILIES = {"stale": fam_stale, "dirty": fam_dirty, "recursion": fam_recursion, "bounds": fam_bounds, "errflow": fam_errflow, "fold": fam_fold, "readloop": fam_readloop, "lock": fam_lock, "gate": fam_gate, "publish": fam_publish, "taint": fam_taint, "panic": fam_panic, "loop": fam_loop, "slice": fam_slice}
+def fam_drop(ctx):
+    from . import dropped
+    from .engine import Ctx
+    sub = Ctx(ctx.prog, ctx.prop, ctx.tier, selftest=True)
+    n = dropped.rule_dropped(sub, "ST.drop", ["verif_selftest"], r"src/", allowed={})
+    if n < 2:
+        raise RuntimeError("selftest: E-drop found %d call sites of bool functions in the witness crate, expected at least 2" % n)
+    bad = {v.key.split("|")[1].split("::")[-1] for v in sub.violations}
+    for i in ("discard_bad", "discard_ok", "discard_ok_branch"):
+        b = body(ctx, i)
+        (ctx.bad if i in bad else ctx.ok)("ST.drop", [i], "dropped bool reported" if i in bad else "silent", b.loc())
+    return {"must_report": ["ST.drop|discard_bad"], "must_not_report": ["ST.drop|discard_ok", "ST.drop|discard_ok_branch"]}
+
+
+FAMILIES = {"drop": fam_drop, "stale": fam_stale, "dirty": fam_dirty, "recursion": fam_recursion, "bounds": fam_bounds, "errflow": fam_errflow, "fold": fam_fold, "readloop": fam_readloop, "lock": fam_lock, "gate": fam_gate, "publish": fam_publish, "taint": fam_taint, "panic": fam_panic, "loop": fam_loop, "slice": fam_slice}
 
 
 def for_families(names):
